@@ -53,6 +53,19 @@ Round 4 - the rest of the program units and of what a graph object is used for:
     same nodes and edges as that graph; procedures that are not shown are neither callers nor users;
   * second and third generated table: `ctorLinks` / `ctorClasses` (every node constructor run on stubs: which
     slots it reads, both directions stored) and `projectLists` (which lists are registered).
+
+Round 6 - what is written on the edges and nodes, and the root's cell of the table:
+  * correspondence in addition: `comp_types` / `comp_of` of every type node (dict order, label text) and the labels
+    of the dashed edges in the DOT source against `compLoop` / `compOfLoop` / `edgeLabel` (driver `c13.complabels`);
+    the label of every procedure node (node object and DOT source) against `procLabel` (driver `c13.proclabel`,
+    input: what `ProcNode.__init__` reads - `self.name`, the names of the scope and of the binding type); the
+    `(rowspan of the root's cell, number of <tr>)` of every graph shown as a table against `rootSpan` / `tableTrs`
+    (two more fields of `c13.all`, variant flag `+r` decided on the witness of C13-table-rootspan);
+  * two micro streams on stubs with the real constructors and graph classes: `micro_labels` (types with repeated,
+    self-referential, name-only, polymorphic components; the real "inherits" / "inherited by" graphs over them),
+    `micro_proclabels` (procedures and type-bound procedures with / without scope, type, naming binding);
+  * oracle in addition: node labels (name; scope shown exactly with `show_proc_parent`, and the declared one); the
+    root's cell of a table spans all its rows.
 """
 from __future__ import annotations
 
@@ -220,7 +233,7 @@ class Table:
         r = dict(kind=k, ptype="o", visible=True, visibleF=False, isBound=False, deferred=False, extUrl=False,
                  graph=True, uses=[], anc=None, comps=[], calls=[], bindings=[], modprocs=[], impl=None,
                  deps=[], boundprocs=[], internals=[], maxDepth=0, maxNodes=1, name=self.ident(obj),
-                 cls=self.class_index(obj))
+                 cls=self.class_index(obj), compnames=[])
         if k == "x":
             return r
         if Table._kind_of_class.get(r["cls"]) != self.KIND_CODE.get(k):
@@ -255,6 +268,7 @@ class Table:
                 if proto == "*":
                     continue
                 r["comps"].append(self.eid(proto))
+                r["compnames"].append(var.name)
             r["boundprocs"] = [self.eid(b) for b in getattr(obj, "boundprocs", [])]
         if k == "t" and r["extUrl"]:
             r["boundprocs"] = [self.eid(b) for b in getattr(obj, "boundprocs", [])]
@@ -325,6 +339,17 @@ def parse_dot(source: str):
     return nodes, edges
 
 
+def parse_dot_node_labels(source: str) -> dict:
+    """-> {node ident: label attribute} (nodes written more than once: the last one, as graphviz reads it)"""
+    out = {}
+    for line in source.splitlines():
+        m = DOT_LINE.match(line)
+        if m and m.group(2) is None and m.group(1) not in ("graph", "node", "edge"):
+            lb = re.search(r'\blabel=("(?:[^"\\]|\\.)*"|\S+)', m.group(3) or "")
+            out[_unq(m.group(1))] = _unq(lb.group(1)) if lb else None
+    return out
+
+
 ROW_RE = re.compile(r'<tr>(?:(?!</tr>).)*class="node"(?:(?!</tr>).)*</tr>', re.S)
 ROW_NODE_RE = re.compile(r'class="node" bgcolor="[^"]*">(?:<a href="[^"]*">)?(.*?)(?:</a>)?</td>', re.S)
 ROW_STYLE_RE = re.compile(r'<td class="(solid|dashed)(?:Bottom|Text)">')
@@ -348,10 +373,23 @@ def observe_shown(graph):
     return "?", []
 
 
+ROOT_SPAN_RE = re.compile(r'<td class="root" rowspan="(\d+)"')
+
+
+def observe_span(graph, shown: str):
+    """table fall-back: (`rowspan` of the cell that holds the root, number of `<tr>` of the table); (0, 0) otherwise"""
+    if shown != "t":
+        return (0, 0)
+    text = str(graph)
+    m = ROOT_SPAN_RE.search(text)
+    return (int(m.group(1)) if m else -1, text.count("<tr>"))
+
+
 def observe(graph, tab: Table | None):
     """canonical observation of one FortranGraph object"""
     nodes, edges = parse_dot(graph.dot.source)
     shown, rows = observe_shown(graph)
+    span = observe_span(graph, shown)
     name = (lambda s: tab.ids.get(s, s)) if tab else (lambda s: s)
     key = lambda x: (isinstance(x, str), x)  # noqa
     ekey = lambda e: tuple(key(x) for x in e)  # noqa
@@ -366,6 +404,8 @@ def observe(graph, tab: Table | None):
         "labels": {n: None for n in ()},
         "shown": shown, "rows": rows, "file": f"{graph.imgfile}.gv", "nroots": len(graph.root),
         "edge_labels": sorted((t, h, lb) for t, h, _, lb in edges if lb is not None),
+        "node_labels": parse_dot_node_labels(graph.dot.source),
+        "span": span,
     }
 
 
@@ -432,7 +472,7 @@ def observe_nodes(gm, tab: Table):
 
 
 def parse_model_graph(field: str):
-    label, added, edges, trunc, hopn, hope, shown, rows, rows_alt = field.split("|")
+    label, added, edges, trunc, hopn, hope, shown, rows, rows_alt, span, trs = field.split("|")
     rl = lambda rs: [(int(r.split(":")[0]), r.split(":")[1]) for r in rs.split(",")] if rs else []  # noqa
     nl = lambda s: sorted(int(x) for x in s.split(",")) if s else []  # noqa
 
@@ -446,7 +486,7 @@ def parse_model_graph(field: str):
 
     return label, {"added": nl(added), "edges": el(edges), "truncated": int(trunc),
                    "hop_nodes": nl(hopn), "hop_edges": el(hope), "shown": shown,
-                   "rows": rl(rows), "rows_alt": rl(rows_alt)}
+                   "rows": rl(rows), "rows_alt": rl(rows_alt), "span": (int(span), int(trs))}
 
 
 def parse_model_data(field: str):
@@ -462,12 +502,12 @@ def parse_model_data(field: str):
     return {int(x) for x in created.split(",")} if created else set(), ll(fwd), ll(inv)
 
 
-VARIANT = {"call_count": "asis", "bound_root": "asis", "table_rows": "asis"}   # decided at run time by `decide_variant`
+VARIANT = {"call_count": "asis", "bound_root": "asis", "table_rows": "asis", "root_span": "asis"}   # decided at run time by `decide_variant`
 
 
 def model_request(tab: Table, order: list[int]) -> list[str]:
     variant = VARIANT["call_count"] + ("+b" if VARIANT["bound_root"] == "fixed" else "") \
-        + ("+t" if VARIANT["table_rows"] == "fixed" else "")
+        + ("+t" if VARIANT["table_rows"] == "fixed" else "") + ("+r" if VARIANT["root_span"] == "fixed" else "")
     return ["c13.all", variant, ",".join(str(x) for x in order)] + [Table.encode(r) for r in tab.rows]
 
 
@@ -497,6 +537,14 @@ def decide_variant(ford, d: Path):
     rows = [observe_shown(p.calledbygraph)[1] for p in project.procedures if p.name == "p0"]
     # (a tree that shows something else here is judged by the witness case itself, as the code as it is)
     VARIANT["table_rows"] = "fixed" if rows and {n for n, _ in rows[0]} == {"p0", "p1", "p2"} else "asis"
+    # Which list gives the rowspan of the root's cell in the table fall-back?  Observed on the witness of
+    # C13-table-rootspan (type t1 extends t0 and has a component of type t0, graph_maxnodes 1: one node, two edges in
+    # the refused hop): `asis` spans 2 * 1 + 1 rows, `fixed` (fixes/C13-table-rootspan.diff) 2 * 2 + 1.
+    files, opts = WITNESSES[ROOT_SPAN]
+    with common.quiet():
+        project, gm, _ = build(ford, d, files, opts)
+    spans = [observe_span(t.inhergraph, "t") for t in project.types if t.name == "t1"]
+    VARIANT["root_span"] = "fixed" if spans and spans[0] == (5, 4) else "asis"
     return dict(VARIANT)
 
 
@@ -528,6 +576,9 @@ def compare(tab: Table, node_obs, obs: dict, resp: list[str]) -> list[str]:
                  for k in ("rows", "rows_alt")]
         if sorted(tuple(r) for r in o["rows"]) not in mrows:
             diffs.append(f"{label}: rows of the table: model {mrows[0]} or {mrows[1]} impl {sorted(tuple(r) for r in o['rows'])}")
+        if tuple(m["span"]) != tuple(o["span"]):
+            diffs.append(f"{label}: table fall-back (rowspan of the root's cell, number of <tr>): model {tuple(m['span'])} "
+                         f"impl {tuple(o['span'])}")
         if m["added"] != o["dot_nodes"]:
             diffs.append(f"{label}: DOT nodes {o['dot_nodes']} differ from model added {m['added']}")
     created, fwd, inv = node_obs
@@ -1446,6 +1497,7 @@ def norm_edges(S: Spec, cls: str, edges):
 GF_DEP = "C13-graph-false-dependency"
 BOUND_LEAF = "C13-binding-to-hidden-not-root"
 TABLE_LOOP = "C13-table-self-loop"
+ROOT_SPAN = "C13-table-rootspan"
 BY_LAZY = "C13-by-graph-misses-unregistered"
 
 
@@ -1510,6 +1562,66 @@ def short_name(ident: str) -> str:
     return ident.split("~", 1)[1] if "~" in ident else ident
 
 
+def label_scopes(A: Abs, S: Spec) -> dict:
+    """ident of a procedure -> name of the scope it is declared in (only where the abstract project says it
+    directly: procedures of modules, submodules and programs, internal procedures)"""
+    out = {}
+    for m in A.mods:
+        for p in m["procs"] + m.get("mpimpls", []):
+            out[f"proc~{p['name']}"] = m["name"]
+    for sm in A.subs:
+        for p in sm["impls"]:
+            out[f"proc~{p['name']}"] = sm["name"]
+    for g in A.progs:
+        for p in g["procs"]:
+            out[f"proc~{p['name']}"] = g["name"]
+    for ident, hident in S.internal_of.items():
+        out[ident] = short_name(hident)
+    return out
+
+
+def judge_node_labels(A: Abs, S: Spec, o: dict, scopes: dict, known_procs: set):
+    """The text a node carries (documented: the entity's name; `show_proc_parent: true` puts the name of the scope a
+    procedure is declared in and `::` in front of it - and only that option does; a type-bound procedure is
+    written `type%name`).  -> why | None"""
+    sp = bool(A.opts.get("show_proc_parent"))
+    for ident, lb in o["node_labels"].items():
+        if lb is None:
+            return f"the node {ident} has no label"
+        kind = S.kind.get(ident)
+        if kind in ("m", "s", "t", "g", "f", "d"):
+            if lb != short_name(ident):
+                return f"the node {ident} is labelled {lb!r}, documented: its name"
+        elif ident in known_procs:
+            if lb.split("::")[-1].split("%")[-1] != short_name(ident):
+                return f"the procedure node {ident} is labelled {lb!r}: not its name"
+            if ("::" in lb) != sp:
+                return (f"the procedure node {ident} is labelled {lb!r} with show_proc_parent={sp}: the scope is shown "
+                        f"exactly when the option is on")
+            if sp and ident in scopes and lb.split("::")[0] != scopes[ident]:
+                return f"the procedure node {ident} is labelled {lb!r}, it is declared in {scopes[ident]}"
+        elif "::" in lb and not sp:
+            return f"the node {ident} is labelled {lb!r} although show_proc_parent is off"
+    return None
+
+
+def judge_span(cls: str, root: str, o: dict):
+    """The table fall-back of a graph whose rows are the documented ones: the cell that holds the root spans all the
+    rows of the table ("the root node takes up one column and spans all rows"): every row is written beside the root,
+    none below it.  -> (None | text, finding id | None)"""
+    if o["shown"] != "t":
+        return None, None
+    span, trs = o["span"]
+    if trs <= span <= trs + 1 and trs == 2 * len(o["rows"]):
+        return None, None
+    # class of C13-table-rootspan: more kept edges than kept nodes (two relations to one entity, an edge from the
+    # root to itself), and the span is the one computed from the nodes
+    fid = ROOT_SPAN if (len(o["hop_edges"]) > len(o["hop_nodes"]) and span == 2 * len(o["hop_nodes"]) + 1
+                        and trs == 2 * len(o["hop_edges"])) else None
+    return (f"table of the {cls} graph of {root}: {len(o['rows'])} rows ({trs} <tr>), the cell of the root spans "
+            f"{span} of them"), fid
+
+
 def judge_shown(S: Spec, root: str, cls: str, o: dict, cache: dict):
     """How the graph appears on its page (`__str__`), judged for a graph whose content is the documented one:
     nothing when there is nothing but the entity itself (or the roots alone exceed the node limit); the table
@@ -1552,7 +1664,7 @@ def judge_shown(S: Spec, root: str, cls: str, o: dict, cache: dict):
 
     want, rows, free = expect(succ)
     if agrees(want, rows, free):
-        return None, None
+        return judge_span(cls, root, o)
     by_class = root != "proj" and cls in ("usedby", "inheritedby", "calledby", "afferent")
     loop = lambda sc: by_class and any(t == h for _, (t, h, _) in sc(roots[0]))  # noqa
     fid = None
@@ -1637,8 +1749,13 @@ def oracle(A: Abs, S: Spec, obs: dict, saved: dict | None = None):
             if ident not in S.graph_false and not has:
                 fails.append((f"{ident}:{cls}", "documented entity has no graph object", None))
     cache, cache2 = {}, {}
+    scopes = label_scopes(A, S)
+    known_procs = {ident for ident, k in S.kind.items() if k in ("p", "i", "b", "n")} | {i for _, i in S.procs.values()}
     for label, o in sorted(obs.items()):
         root, cls = label.rsplit(":", 1)
+        w = judge_node_labels(A, S, o, scopes, known_procs)
+        if w:
+            fails.append((label, w, None))
         # no dangling edge
         nodes = set(o["dot_nodes"])
         for t, h, s in o["edges"]:
@@ -1706,7 +1823,9 @@ def names_obs(obs: dict, tab: Table) -> dict:
             "dot_nodes": [nm(x) for x in o["dot_nodes"]], "added": [nm(x) for x in o["added"]],
             "edges": [(nm(t), nm(h), s) for t, h, s in o["edges"]], "truncated": o["truncated"],
             "shown": o["shown"], "rows": o["rows"], "file": o["file"], "nroots": o["nroots"],
-            "edge_labels": o["edge_labels"],
+            "edge_labels": o["edge_labels"], "node_labels": o["node_labels"], "span": o["span"],
+            "hop_nodes": [nm(x) for x in o["hop_nodes"]],
+            "hop_edges": [(nm(t), nm(h), st) for t, h, st in o["hop_edges"]],
         }
     return out
 
@@ -1775,6 +1894,300 @@ def micro_callnodes(ford, drv, rng, n, rep):
 
 
 # --------------------------------------------------------------------------
+# labels of composition edges (round 6): `comp_types` / `comp_of` of the real type nodes and the labels in
+# the DOT source, against `compLoop` / `compOfLoop` / `edgeLabel` of the model (driver `c13.complabels`)
+# --------------------------------------------------------------------------
+
+
+def observe_labels(gm, tab: Table) -> dict:
+    """eid of a type -> {"types": [(eid of component type, label)] in dict order,
+                         "of": [(eid of component type, label stored on that node for this type)]}
+    (`of` only for component types that are entities of the project: a type known by name only gets one node
+    object per occurrence and has no "inherited by" graph)"""
+    out = {}
+    nm = lambda n: tab.ids.get(n.ident, n.ident)  # noqa
+    for node in gm.data.types.values():
+        if getattr(node, "fromstr", False):
+            continue
+        out[nm(node)] = {
+            "types": [(nm(t), lb) for t, lb in node.comp_types.items()],
+            "of": [(nm(t), t.comp_of.get(node)) for t in node.comp_types if not getattr(t, "fromstr", False)],
+        }
+    return out
+
+
+def label_requests(tab: Table) -> list:
+    return [(a, ["c13.complabels", ",".join(map(str, r["comps"]))])
+            for a, r in enumerate(tab.rows) if r["kind"] == "t" and not r["extUrl"] and r["comps"]]
+
+
+def parse_labels(field: str, names: list) -> list:
+    out = []
+    for x in field.split(","):
+        if x:
+            k, l = x.split(":")
+            out.append((int(k), ", ".join(names[int(i)] for i in l.split("."))))
+    return out
+
+
+def compare_labels(tab: Table, label_obs: dict, obs: dict, reqs: list, resps: list) -> list[str]:
+    diffs, model, asked = [], {}, set()
+    for (a, _), resp in zip(reqs, resps):
+        asked.add(a)
+        name, names = tab.rows[a]["name"], tab.rows[a]["compnames"]
+        if not resp or resp[0] != "ok":
+            diffs.append(f"labels of {name}: model answered {resp}")
+            continue
+        mt = parse_labels(resp[1] if len(resp) > 1 else "", names)
+        mo = [(t, lb) for t, lb in parse_labels(resp[2] if len(resp) > 2 else "", names) if tab.rows[t]["kind"] != "x"]
+        if a not in label_obs:
+            continue        # no node object was made for this type (`graph: false` and nothing depends on it)
+        it = label_obs[a]
+        if mt != it["types"]:
+            diffs.append(f"comp_types of {name} (component type, names of the components): model {mt} impl {it['types']}")
+        if mo != it["of"]:
+            diffs.append(f"comp_of entries for {name} on its component types: model {mo} impl {it['of']}")
+        for t, lb in mt:
+            model[(a, t)] = lb
+    for a, it in label_obs.items():
+        if a not in asked and (it["types"] or it["of"]):
+            diffs.append(f"comp_types of {tab.rows[a]['name'] if isinstance(a, int) else a}: the entity has no "
+                         f"component of derived type, impl {it['types']}")
+    for label, o in obs.items():
+        cls = label.rsplit(":", 1)[1]
+        got = sorted(((tab.ids.get(t, t), tab.ids.get(h, h), lb) for t, h, lb in o["edge_labels"]), key=repr)
+        if cls in ("type", "inherits", "inheritedby"):
+            want = sorted(((t, h, model.get((t, h))) for t, h, st in o["edges"] if st == "d"), key=repr)
+        else:
+            want = []
+        if want != got:
+            diffs.append(f"{label}: labels of the edges in the DOT source {got}, model {want}")
+    return diffs
+
+
+def micro_labels(ford, drv, rng, n, rep):
+    """the real `TypeNode.__init__` (real `GraphData`) on stub types with random component lists - several
+    components of the same type, of the type itself, of types known by name only, unlimited polymorphic ones,
+    components that are no derived types - and the real "inherits" / "inherited by" graphs over them: the dicts
+    `comp_types` / `comp_of` (order and labels) and the labels in the DOT source must be what the model says"""
+    import types as pytypes
+
+    import graphviz
+    import ford.graphs as G
+    import ford.sourceform as sf
+    from translate import c13 as T
+
+    probe = T._CtorProbe(ford)
+    real_pipe = graphviz.Digraph.pipe
+    graphviz.Digraph.pipe = lambda self, *a, **k: b'<svg width="10pt" height="10pt"></svg>'
+    reqs, cases = [], []
+    hist = {"same-type-twice": 0, "self-component": 0, "named-only": 0, "extends-and-contains": 0, "no-component": 0}
+    try:
+        for _ in range(n):
+            meta = pytypes.SimpleNamespace(graph_maxdepth=3, graph_maxnodes=100, graph=True)
+            k = rng.randint(1, 4)
+            targets = [probe.stub(sf.FortranType, meta=meta) for _ in range(k)]
+            named = [f"xt{i}" for i in range(2)]
+            variables, comps, names = [], [], []
+            self_ref = rng.random() < 0.2
+            for i in range(rng.choice([0, 1, 2, 3, 4, 5, 6, 8])):
+                vt = rng.choice(["type", "type", "class", "class", "integer", "real"])
+                x = rng.random()
+                if x < 0.1:
+                    proto, tid = "*", None
+                elif x < 0.2:
+                    j = rng.randrange(len(named))
+                    proto, tid = named[j], k + 1 + j
+                elif x < 0.3 and self_ref:
+                    proto, tid = "self", k
+                else:
+                    j = rng.randrange(k)
+                    proto, tid = targets[j], j
+                name = f"c{rng.randrange(5)}" if rng.random() < 0.2 else f"v{i}"   # names may repeat: labels are text
+                variables.append((vt, name, proto))
+                if vt in ("type", "class") and proto != "*":
+                    comps.append(tid)
+                    names.append(name)
+            ext = rng.choice([None, None] + list(range(k)))
+            obj = probe.stub(sf.FortranType, meta=meta, extends=None if ext is None else targets[ext])
+            obj.local_variables = [pytypes.SimpleNamespace(vartype=vt, name=nm_, proto=[obj if pr == "self" else pr])
+                                   for vt, nm_, pr in variables]
+            ents = targets + [obj]
+            gd = G.GraphData("..", False, False)
+            node = gd.get_node(obj)
+
+            def idx(nd_):
+                for i, e in enumerate(ents):
+                    if nd_.ident == f"stub~{e.ident}":
+                        return i
+                return k + 1 + named.index(nd_.ident)
+
+            it = [(idx(t), lb) for t, lb in node.comp_types.items()]
+            io = [(idx(t), t.comp_of.get(node)) for t in node.comp_types if not t.fromstr]
+            dot = {}
+            g = G.InheritsGraph(obj, gd)
+            dot["inherits"] = sorted(((idx_s(t, ents, named, k), idx_s(h, ents, named, k), st[0], lb)
+                                      for t, h, st, lb in parse_dot(g.dot.source)[1]), key=repr)
+            by = {}
+            for j in sorted({c for c in comps if c < k}):
+                gb = G.InheritedByGraph(targets[j], gd)
+                by[j] = sorted(((idx_s(t, ents, named, k), idx_s(h, ents, named, k), st[0], lb)
+                                for t, h, st, lb in parse_dot(gb.dot.source)[1]), key=repr)
+            if len(set(comps)) < len(comps):
+                hist["same-type-twice"] += 1
+            if k in comps:
+                hist["self-component"] += 1
+            if any(c > k for c in comps):
+                hist["named-only"] += 1
+            if ext is not None and ext in comps:
+                hist["extends-and-contains"] += 1
+            if not comps:
+                hist["no-component"] += 1
+            reqs.append(["c13.complabels", ",".join(map(str, comps))])
+            cases.append(dict(components=[(vt, nm_, pr if isinstance(pr, str) else f"t{targets.index(pr)}")
+                                          for vt, nm_, pr in variables],
+                              extends=ext, comps=comps, names=names, k=k, impl_types=it, impl_of=io, dot=dot, by=by))
+    finally:
+        graphviz.Digraph.pipe = real_pipe
+    bad = 0
+    for c, resp in zip(cases, drv.batch(reqs)):
+        k, names, comps = c["k"], c["names"], c["comps"]
+        mt = parse_labels(resp[1] if len(resp) > 1 else "", names)
+        mo = [(t, lb) for t, lb in parse_labels(resp[2] if len(resp) > 2 else "", names) if t <= k]
+        lab = dict(mt)
+        # edges of the "inherits" graph of the new type, from the model's relation: one dashed edge per key of the
+        # dict with its label, the solid extension edge without (second hops: the targets have no relations)
+        want = sorted([(k, t, "d", lb) for t, lb in mt] + ([(k, c["extends"], "s", None)] if c["extends"] is not None else []),
+                      key=repr)
+        # self-component: the second hop expands the type again only if it was not yet drawn - it is the root
+        why = None
+        if resp[0] != "ok":
+            why = f"model answered {resp}"
+        elif mt != c["impl_types"]:
+            why = f"comp_types: model {mt} impl {c['impl_types']}"
+        elif mo != c["impl_of"]:
+            why = f"comp_of: model {mo} impl {c['impl_of']}"
+        elif want != c["dot"]["inherits"]:
+            why = f"edges (tail, head, style, label) of the inherits graph: model {want} impl {c['dot']['inherits']}"
+        else:
+            for j, edges in c["by"].items():
+                wantb = sorted([(k, j, "d", lab[j])] + ([(k, j, "s", None)] if c["extends"] == j else []), key=repr)
+                if k in comps:      # the new type contains itself: its own inherited-by hop is drawn below it
+                    wantb = sorted(set(wantb + [(k, k, "d", lab[k])]), key=repr)
+                if wantb != edges:
+                    why = f"edges of the inherited-by graph of t{j}: model {wantb} impl {edges}"
+                    break
+        if why:
+            bad += 1
+            rep.tie_broken("correspondence micro/composition labels: " + why, dict(c, stream="micro-labels", model=resp))
+    return len(reqs), bad, hist
+
+
+def idx_s(ident: str, ents, named, k):
+    for i, e in enumerate(ents):
+        if ident == f"stub~{e.ident}":
+            return i
+    return k + 1 + named.index(ident)
+
+
+# --------------------------------------------------------------------------
+# labels of procedure nodes (round 6): `ProcNode.__init__` against `procLabel` (driver `c13.proclabel`)
+# --------------------------------------------------------------------------
+
+
+def label_inputs(sf, obj, node) -> dict:
+    """what `ProcNode.__init__` reads for the label of the node of `obj`, besides `self.name` (left by
+    `BaseNode.__init__`, not modelled): the scope and the type the procedure is bound to"""
+    if isinstance(obj, sf.FortranBoundProcedure):
+        binder = getattr(obj, "parent", None)
+        parent = getattr(binder, "parent", None)
+    else:
+        parent = getattr(obj, "parent", None)
+        binder = getattr(getattr(obj, "binding", None), "parent", None)
+    return {"name": node.name, "parent": parent.name if parent else None, "binder": binder.name if binder else None}
+
+
+def proclabel_request(show_parent: bool, li: dict) -> list:
+    return ["c13.proclabel", "1" if show_parent else "0", "0" if li["parent"] is None else "1",
+            "0" if li["binder"] is None else "1", li["name"], li["parent"] or "-", li["binder"] or "-"]
+
+
+def observe_proc_labels(gm, tab: Table, sf) -> list:
+    """[(ident, inputs of the label, label the real node carries)] for every procedure node"""
+    out = []
+    for obj, node in gm.data.procedures.items():
+        out.append((node.ident, label_inputs(sf, obj, node), node.attribs.get("label")))
+    return out
+
+
+def compare_proc_labels(show_parent: bool, proc_obs: list, obs: dict, resps: list) -> list[str]:
+    diffs, model = [], {}
+    for (ident, li, real), resp in zip(proc_obs, resps):
+        if not resp or resp[0] != "ok":
+            diffs.append(f"label of {ident}: model answered {resp}")
+            continue
+        m = resp[1] if len(resp) > 1 else ""
+        model[ident] = m
+        if m != real:
+            diffs.append(f"label of the node {ident} (show_proc_parent={show_parent}, read {li}): model {m!r} impl {real!r}")
+    for label, o in obs.items():
+        for ident, lb in o["node_labels"].items():
+            if ident in model and lb != model[ident]:
+                diffs.append(f"{label}: the DOT source labels {ident} {lb!r}, model {model[ident]!r}")
+                break
+    return diffs
+
+
+def micro_proclabels(ford, drv, rng, n, rep):
+    """the real `ProcNode.__init__` (real `GraphData`, both values of `show_proc_parent`) on stub procedures and
+    type-bound procedures with and without a scope, a type, a binding that names them; names collide on purpose"""
+    import types as pytypes
+
+    import ford.graphs as G
+    import ford.sourceform as sf
+    from translate import c13 as T
+
+    probe = T._CtorProbe(ford)
+    reqs, cases = [], []
+    hist = {"bound": 0, "named-by-binding": 0, "no-scope": 0, "show_proc_parent": 0, "by-name-only": 0}
+    nm = lambda: rng.choice(["run", "go", "a", "b", "m0", "t0", "init_x", "p1"])  # noqa
+    for _ in range(n):
+        sp = rng.random() < 0.5
+        gd = G.GraphData("..", False, sp)
+        hist["show_proc_parent"] += sp
+        x = rng.random()
+        if x < 0.1:
+            obj = sf.ExternalSubroutine(nm())
+            hist["by-name-only"] += 1
+        elif x < 0.45:
+            scope = None if rng.random() < 0.15 else pytypes.SimpleNamespace(name=nm(), parent=None, visible=True)
+            typ = None if rng.random() < 0.1 else pytypes.SimpleNamespace(name=nm(), parent=scope, visible=True)
+            obj = probe.stub(sf.FortranBoundProcedure, name=nm(), parent=typ)
+            hist["bound"] += 1
+        else:
+            scope = None if rng.random() < 0.2 else pytypes.SimpleNamespace(name=nm(), parent=None)
+            obj = probe.stub(rng.choice([sf.FortranSubroutine, sf.FortranFunction]), name=nm(), parent=scope)
+            if rng.random() < 0.4:
+                typ = None if rng.random() < 0.2 else pytypes.SimpleNamespace(name=nm())
+                obj.binding = pytypes.SimpleNamespace(parent=typ, name=nm())
+                hist["named-by-binding"] += 1
+            if scope is None:
+                hist["no-scope"] += 1
+        node = gd.get_node(obj)
+        li = label_inputs(sf, obj, node)
+        reqs.append(proclabel_request(sp, li))
+        cases.append(dict(show_proc_parent=sp, read=li, impl=node.attribs.get("label"),
+                          cls=type(obj).__mro__[1].__name__))
+    bad = 0
+    for c, resp in zip(cases, drv.batch(reqs)):
+        if resp[0] != "ok" or (resp[1] if len(resp) > 1 else "") != c["impl"]:
+            bad += 1
+            rep.tie_broken(f"correspondence micro/procedure labels: model {resp} impl {c['impl']!r} for {c['read']} "
+                           f"(show_proc_parent={c['show_proc_parent']})", dict(c, stream="micro-proclabels", model=resp))
+    return len(reqs), bad, hist
+
+
+# --------------------------------------------------------------------------
 # fixed witnesses of the known findings (met on every run)
 # --------------------------------------------------------------------------
 
@@ -1796,6 +2209,9 @@ WITNESSES = {
                   "  subroutine p0()\n    type(t0) :: v0\n    call v0%b0()\n  end subroutine p0\n"
                   "  subroutine h0()\n    call p1()\n  end subroutine h0\n"
                   "  subroutine p1()\n  end subroutine p1\nend module m0\n"}, {}),
+    "C13-table-rootspan": (
+        {"a.f90": "module m0\n  type :: t0\n    integer :: i\n  end type t0\n  type, extends(t0) :: t1\n"
+                  "    type(t0) :: c0\n  end type t1\nend module m0\n"}, {"graph_maxnodes": 1}),
     "C13-table-self-loop": (
         {"a.f90": "module m0\ncontains\n  subroutine p0()\n    call p0()\n  end subroutine p0\n"
                   "  subroutine p1()\n    call p0()\n  end subroutine p1\n"
@@ -1823,6 +2239,10 @@ def witness_abs(fid: str) -> Abs:
         p0 = dict(pr("p0", []), calls=[("tb", "v0", "b0")], locals=[("v0", "t0")])
         A.mods = [dict(mk("m0", procs=[p0, dict(pr("h0", ["p1"]), private=True, bound=True), pr("p1", [])]),
                        types=[dict(name="t0", extends=None, comps=[], binds=[("b0", "h0")], generics=[], meta={})])]
+    elif fid == "C13-table-rootspan":
+        ty = lambda n, ext, comps: dict(name=n, extends=ext, comps=comps, binds=[], generics=[], meta={})  # noqa
+        A.mods = [dict(mk("m0"), types=[ty("t0", None, []), ty("t1", "t0", [("c0", "t0", False)])])]
+        A.opts = {"graph_maxnodes": 1}
     elif fid == "C13-table-self-loop":
         A.mods = [mk("m0", procs=[pr("p0", ["p0"]), pr("p1", ["p0"]), pr("p2", ["p0"])])]
         A.opts = {"graph_maxnodes": 1}
@@ -1868,13 +2288,35 @@ def run_case(ford, drv, d: Path, A: Abs | None, files: dict, opts: dict):
     node_obs = observe_nodes(gm, tab)
     out["request"] = model_request(tab, oids)
 
+    label_obs = observe_labels(gm, tab)
+    out["label_reqs"] = label_requests(tab)
+    out["stats"]["labelled-types"] = len(out["label_reqs"])
+    out["stats"]["labels-naming-several"] = sum(1 for it in label_obs.values() for _, lb in it["types"] if ", " in lb)
+
     def settle(resp, out=out, tab=tab, node_obs=node_obs, obs=obs):
         out["corr"] = compare(tab, node_obs, obs, resp)
         out.pop("settle", None)
+
+    import ford.sourceform as sf_
+    show_parent = bool(gm.data.show_proc_parent)
+    proc_obs = observe_proc_labels(gm, tab, sf_)
+    n_comp_reqs = len(out["label_reqs"])
+    raw_obs = {label: {"node_labels": o["node_labels"]} for label, o in obs.items()}
+    out["label_reqs"] = out["label_reqs"] + [(None, proclabel_request(show_parent, li)) for _, li, _ in proc_obs]
+    out["stats"]["proc-labels"] = len(proc_obs)
+    out["stats"]["proc-labels-with-type"] = sum(1 for _, li, _ in proc_obs if li["binder"])
+
+    def settle_labels(resps, out=out, tab=tab, label_obs=label_obs, obs=obs):
+        # (after `settle`: the differences are appended)
+        out["corr"] = (out["corr"] + compare_labels(tab, label_obs, obs, out["label_reqs"][:n_comp_reqs], resps[:n_comp_reqs])
+                       + compare_proc_labels(show_parent, proc_obs, raw_obs, resps[n_comp_reqs:]))
+        out.pop("settle_labels", None)
     if drv is not None:
         settle(drv.call(*out["request"]))
+        settle_labels(drv.batch([rq for _, rq in out["label_reqs"]]) if out["label_reqs"] else [])
     else:
         out["settle"] = settle
+        out["settle_labels"] = settle_labels
     st = out["stats"]
     for label, o in obs.items():
         cls = label.rsplit(":", 1)[1]
@@ -1918,9 +2360,9 @@ def run(tier: str, seed: int, replay: str | None = None) -> int:
     n_micro = 6000 if tier == "quick" else 60000
 
     # SVG rendering (graphviz `dot`, not part of the observation) is done for real on every
-    # 16th project only (thorough: every 8th; one `dot` process per graph, ~60 per project, is what the wall
+    # 32nd project only (round 6: was every 16th; thorough: every 8th; one `dot` process per graph, ~60 per project, is what the wall
     # time of this check consists of on a loaded machine); the DOT source is what is compared.
-    real_every = 16 if tier == "quick" else 8
+    real_every = 32 if tier == "quick" else 8
     import graphviz
     real_pipe = graphviz.Digraph.pipe
     fake_pipe = lambda self, *a, **k: b'<svg width="10pt" height="10pt"></svg>'  # noqa
@@ -1929,7 +2371,7 @@ def run(tier: str, seed: int, replay: str | None = None) -> int:
     stats: dict[str, int] = {}
     distinct = set()
     samples = []
-    n_graphs = n_corr_bad = n_oracle = n_err = 0
+    n_graphs = n_corr_bad = n_oracle = n_err = n_label_cmp = 0
     cases = []
     if replay:
         r = json.loads(Path(replay).read_text())
@@ -1955,12 +2397,19 @@ def run(tier: str, seed: int, replay: str | None = None) -> int:
             cases.append((A, render(A), A.opts, "proj"))
     try:
         ev_micro, bad_micro = micro_callnodes(ford, drv, rng, n_micro, rep)
+        # (a stream of its own: the projects and call lists of the earlier rounds stay what they were)
+        ev_lab, bad_lab, hist_lab = micro_labels(ford, drv, random.Random(seed * 7919 + 6007),
+                                                 1500 if tier == "quick" else 15000, rep)
+        ev_pl, bad_pl, hist_pl = micro_proclabels(ford, drv, random.Random(seed * 7919 + 6011),
+                                                  3000 if tier == "quick" else 30000, rep)
+        ev_micro, bad_micro = ev_micro + ev_lab + ev_pl, bad_micro + bad_lab + bad_pl
         with common.scratch_dir() as d:
             graphviz.Digraph.pipe = fake_pipe
             variants = decide_variant(ford, d / "v")
             rep.coverage["variant_decided"] = {"CallGraph node counting": variants["call_count"],
                                                "bound procedures as call-graph roots": variants["bound_root"],
-                                               "side shown by the table fall-back": variants["table_rows"]}
+                                               "side shown by the table fall-back": variants["table_rows"],
+                                               "rowspan of the root's cell in the table fall-back": variants["root_span"]}
             CHUNK = 64      # the model answers the requests of this many projects in one run of the driver
             for k0 in range(0, len(cases), CHUNK):
                 results = []
@@ -1971,6 +2420,15 @@ def run(tier: str, seed: int, replay: str | None = None) -> int:
                 pending = [res for _, res in results if "settle" in res]
                 for res, resp in zip(pending, drv.batch([res["request"] for res in pending])):
                     res["settle"](resp)
+                # the labels of the composition edges: one request per type with components, one run of the driver
+                lab = [res for _, res in results if "settle_labels" in res]
+                flat = [rq for res in lab for _, rq in res["label_reqs"]]
+                resps, pos = (drv.batch(flat) if flat else []), 0
+                for res in lab:
+                    nreq = len(res["label_reqs"])
+                    res["settle_labels"](resps[pos:pos + nreq])
+                    pos += nreq
+                    n_label_cmp += nreq
                 for k, res in results:
                     A, files, opts, stream = cases[k]
                     case = {"stream": stream, "index": k, "files": files, "opts": opts,
@@ -2017,11 +2475,15 @@ def run(tier: str, seed: int, replay: str | None = None) -> int:
         build_errors=n_err,
         project_feature_histogram=dict(sorted(feats.items())),
         graph_histogram=dict(sorted(stats.items())),
+        composition_labels={"micro_cases": ev_lab, "micro_histogram": hist_lab,
+                            "label_requests_for_project_nodes": n_label_cmp},
+        procedure_labels={"micro_cases": ev_pl, "micro_histogram": hist_pl},
     )
     rep.assumptions += [
         "Fortran parsing / correlate (C01, C06-C08) are on the implementation side: the model starts from the entity "
         "attributes the node constructors read (uses, calls, bindings, extends, component prototypes, deplist, meta)",
-        "iteration order inside a hop, colours, labels, URLs, SVG layout and the HTML table fallback are not compared",
+        "iteration order inside a hop, colours, node labels, URLs and SVG layout are not compared (labels of composition "
+        "edges and the HTML table fallback are)",
         "interface bodies written inside a generic interface block have no page of their own and are not expected as "
         "nodes; a specific procedure that is hidden (private, display without private) is expected to have no edge",
         "graph_maxdepth: 0 is read as one hop (the code always expands the roots once)",
@@ -2030,6 +2492,10 @@ def run(tier: str, seed: int, replay: str | None = None) -> int:
         "C07 / C08 state it; an internal procedure is shown only with proc_internals and has no graphs of its own",
         "the order of the edges inside a hop is not modelled: for the table fall-back, which looks at the first edge, "
         "the model answers for both relevant orders (self-loops of the root first / last)",
+        "labels (round 6): the label of a procedure node is modelled from what ProcNode.__init__ reads (self.name as "
+        "BaseNode.__init__ left it, the names of the scope and of the binding type); the names themselves, URLs and "
+        "colours are on the implementation side.  The label oracle checks the scope prefix only for procedures whose "
+        "scope the abstract project states directly (module, submodule, program, host procedure)",
         "which graphs get a file in graph_dir at all is not judged (output completeness): FORD writes those that show "
         "more than their roots, except the `uses` graphs of procedures; `dot` itself is not run for these files",
     ]
